@@ -36,6 +36,7 @@ class Tracker:
         self.member = member
         self.raisers = raisers
         self.check_increment = False
+        self.check_singular = False     # needs flag correlation ('treated' set together with the iterator): off, see DESIGN.md 12.4 (C35-d)
         self.kids = children_of(funcs)
         self.summ = {}          # key(f) -> {var: (requires, ensures)}
         self.indirect = []      # (func, site, arg index, checked?) for calls through pointers to members
@@ -221,6 +222,13 @@ class Tracker:
                     mod = (v, n["op"], f.kids(sid)[1])
             if mod is not None:
                 v, op, rhs = mod
+                # a default-constructed (singular) local iterator copied into a tracked iterator
+                if op == "=" and rhs is not None and self.check_singular:
+                    rv_ = self.var_of(f, rhs)
+                    if rv_ is not None and ("sing", rv_) in checked and report is not None and (sid, rv_, "sing") not in reported:
+                        reported.add((sid, rv_, "sing"))
+                        report("singular", f, sid, name_of(rv_), "assigned to '%s' although it was never given a value on this path" % name_of(v))
+                checked = checked - {("sing", v)}
                 if op == "++" and self.check_increment and v not in checked and not (v in pristine and (v in tp or v == "M")) and ("next", v) not in checked:
                     if report is not None and (sid, v, "inc") not in reported:
                         reported.add((sid, v, "inc"))
@@ -255,6 +263,9 @@ class Tracker:
                             checked = checked | {v}     # copy of a checked iterator / a step backwards
                         else:
                             checked = checked - {v}
+                        i1 = f.stmts.get(f.strip(d["init"])) if "init" in d else None
+                        if self.check_singular and ("init" not in d or (i1 is not None and i1["k"] == "CXXConstructExpr" and not i1.get("args"))):
+                            checked = checked | {("sing", v)}       # declared without a value: singular until assigned
                         pristine = pristine - {v}
                 return ((checked, pristine, assume),)
             # calls
